@@ -391,6 +391,8 @@ to_internal_location(struct hwloc_internal_location_s *iloc,
     }
     iloc->location.object.gp_index = location->location.object->gp_index;
     iloc->location.object.type = location->location.object->type;
+    /* the whole structure may be copied into a new initiator while the cache is valid */
+    iloc->location.object.obj = location->location.object;
     return 0;
   default:
     errno = EINVAL;
